@@ -99,7 +99,8 @@ def _list_plot_item_labels(cp):
 def _item_value(cp, key):
   if not ":" in key:
     raise ConfigurationException("malformed item '{}' should have the form SECTION_NAME:KEY".format(key))
-  section, section_key = key.split(":",1)
+  # Section names can contain ':' ([Table-Form:NAME]), option keys cannot.
+  section, section_key = key.rsplit(":",1)
   raw_cp = cp.raw_config_parser
   if not raw_cp.has_option(section, section_key):
     raise ConfigurationException("item '{}' not found in configuration file".format(key))
